@@ -128,6 +128,74 @@ CHECKS['C18'] = ('4/C18',
     'Trusted: Lean kernel; correspondence harness; fnmatch character classes ([seq]) are outside model and statement; str.lower modelled on ASCII.',
     'Lean 4 proof (list induction, scan invariants) + model/implementation correspondence on complete index sweeps')
 
+CHECKS['C01'] = ('4/C01',
+    'Lean 4 theorems: the wrapper of Parser.parse maps EVERY evaluator outcome (every formula, builtin, arity, callback behaviour '
+    'the model can express) to a well-formed record - error one of the nine codes of the regenerated from_message table, error set '
+    '=> result empty, result never an error value; every string in every environment gets such a record; the lexer and parser fuel '
+    'bounds are proved sufficient (no syntax error is a fuel artefact) and every modelled loop has a Lean termination proof. The real '
+    'parse is judged directly on token soups, mutated formulas, arbitrary Unicode, long/deep inputs, EVERY registered function x '
+    'arity 0..4 x a 14-value pool (complete in the thorough tier, 6.6 M calls) and hostile host callbacks, each call under a step '
+    'budget and a wall-clock guard in worker processes (a hang is reported as a violation with the formula).',
+    'Trusted: Lean kernel; extract.py (error table); termination/boundedness of unmodelled builtins and of ply/re is covered only by '
+    'the budgeted sweep (exploration inside the evidence); a listener raising SyntaxError triggers ply error recovery (record stays '
+    'well-formed).',
+    'Lean 4 proof (totality of the record wrapper over all outcomes; fuel sufficiency) + generated error table + budgeted exhaustive function sweep')
+CHECKS['C08'] = ('4/C08',
+    'Lean 4 theorems over operators and evaluator: all eleven binary operators and unary minus return an error operand (left one '
+    'first) for every other operand; in operator trees of any depth the leftmost error leaf is the value (under the stated regularity '
+    'condition; the unconditional claim is refuted by a kernel-checked counterexample since operators can fail on their own); an '
+    'error literal - and any raise - aborts every enclosing node with the log frozen; errors at the top are reported under their '
+    'canonical code (regenerated table) with an empty result; IFERROR/IFNA/ISERROR/ISERR/ISNA/ERROR.TYPE see every error value, '
+    'including those a called function returns or raises, through any chain of calls. Tied to the code on seeded trees with error '
+    'producers of every kind under every operator and trap.',
+    'Trusted: Lean kernel; extract.py; builtins outside the modelled families are judged by the oracle only.',
+    'Lean 4 proof (induction over contexts/trees; generated error table) + model/implementation correspondence')
+CHECKS['C11'] = ('4/C11',
+    'Lean 4 theorems over the models of statistical.py and the aggregate part of mathtrig.py (exact rationals with Python result '
+    'typing): every aggregate depends only on the flattened items (regrouping invariance for all 23 *args aggregates and LARGE/SUMIF/'
+    'COUNTIF/AVERAGEIF), order-free ones are permutation-invariant, each equals its textbook definition (sum, product, mean, min/max, '
+    'median via the unique sorted permutation, first most frequent mode, variances via the one-pass formula, avedev, geometric/harmonic '
+    'mean on positive items, k-th largest, least-squares slope); the criteria parser meets the three-form semantics (regex and '
+    'operator table regenerated) and the *IF(S) functions equal the statistic over exactly the index-aligned selected items, 0 / error '
+    'on an empty selection; an error item makes SUM/PRODUCT/AVERAGE/MIN/MAX/MEDIAN that error. Tied to the code on seeded lists, '
+    'partitions, permutations and criteria.',
+    'Trusted: Lean kernel; extract.py; CPython statistics computes exact rationals before conversion (modelled); sqrt/n-th root are '
+    'represented by their defining equation (checked numerically); fnmatch classes unmodelled; HARMEAN/GEOMEAN are read on positive items.',
+    'Lean 4 proof (List.Perm, sorting uniqueness, Rat algebra) + generated criteria tables + model/implementation correspondence')
+CHECKS['C14'] = ('4/C14',
+    'Lean 4 theorems: the transcription of CPython\'s calendar arithmetic is proved correct for ALL integer years (ordinal/ymd round '
+    'trips, strict monotonicity, year lengths, weekday steps, 400-year cycle - layered 400/100/4/1-year blocks plus a kernel-decided '
+    'day-of-year table); over it, DATE/YEAR/MONTH/DAY, TIME/HOUR/MINUTE/SECOND, components from ISO text and whole-day serials, the '
+    '1900+year rule, EDATE (divmod month shift, clamping; its own month table and leap rule proved equal to the calendar\'s), DATEDIF '
+    'm/y/ym/d and DAYS (d/DAYS from 1 March 1900 on, see C13), order -> #NUM!, WEEKDAY types 1-3 and #NUM! otherwise; all source '
+    'literals/operators regenerated. Tied to the code on a date lattice (quick) / every date 1900-9999, every (h,m,s), every serial (thorough).',
+    'Trusted: Lean kernel; extract.py; Python datetime is the calendar reference of the oracle and is itself compared with the Lean '
+    'calendar on every day 1900-9999; dateutil beyond ISO-8601 is library behaviour; float noise in DATEDIF d on date-times is outside '
+    'the statement (whole dates).',
+    'Lean 4 proof (layered calendar arithmetic, decide over day-of-year table) + generated constants + full-range correspondence')
+CHECKS['C16'] = ('4/C16',
+    'Lean 4 theorems about the SAME generic definitions of the functions (written once over an ElemOps structure) instantiated at the '
+    'real numbers with Mathlib: domains (result defined iff the argument is in the mathematical domain), coercion (numeric text, '
+    'logicals, #VALUE! for other text), the defining identities (sin^2+cos^2, TAN, COT, EXP/LN, LOG base, every inverse pair incl. the '
+    'hand-composed ACOT/ACOTH/COT/EXP, DEGREES/RADIANS), ATAN2 as the angle of the point and #DIV/0! iff origin, the PV annuity equation '
+    '(integer and real periods) and its linear form, RAND/RANDBETWEEN ranges under the library contract. The Float instance of the same '
+    'definitions (libm) is compared with the real functions bit-for-bit-close (4 ulp) and error tags exactly; the oracle judges '
+    'classification, a 60-digit reference value and 28 identities through real formulas.',
+    'Trusted: Lean kernel; Mathlib analysis library; libm approximates the real functions (floating-point rounding is NOT addressed by '
+    'proof); arguments confined to magnitudes where results and obvious intermediates are representable; four overflow witnesses are '
+    'listed known findings.',
+    'Lean 4 + Mathlib proof over the reals of generic definitions + Float-instance correspondence')
+CHECKS['C17'] = ('4/C17',
+    'Lean 4 theorems over the models of the rounding/integer/radix/roman/complex functions (exact rationals with Python int/float '
+    'typing; constants, alphabets, numeral maps and regexes regenerated): ROUND/ROUNDUP/ROUNDDOWN/CEILING/FLOOR/INT/EVEN/ODD/QUOTIENT/'
+    'MOD/SIGN/FACT/FACTDOUBLE meet their specs for all numbers and digits; HEX2DEC(DEC2HEX n) = n on the whole 40-bit range and #NUM! '
+    'outside; DECIMAL(BASE(n,r),r) = n for all n < 2^39, r in 2..36, #NUM! for bad radix/negative, the digit loop terminates '
+    '(well-founded recursion); every ROMAN form denotes n and ARABIC(ROMAN n) = n for ALL 1..3999 (kernel-decided over the whole '
+    'range in chunks, lifted by a range lemma - not a sample); COMPLEX parts recovered. Tied to the code on 126k (quick) / 1.16M (thorough) cases.',
+    'Trusted: Lean kernel; extract.py; float rounding error not modelled (decimal fractions judged within 2 ulp); FACT on huge '
+    'arguments outside the pool.',
+    'Lean 4 proof (digit-list induction, well-founded recursion, decide +kernel over 1..3999) + generated constants + correspondence')
+
 NOT_APPLICABLE = {}
 
 
